@@ -111,7 +111,7 @@ Lemma read_fresh_refuted :
                  /\ snd (read RF registry (clear st) f) = Ok v0 /\ v <> v0.
 Proof.
   exists (mkBase [(f_fl1, 0); (f_fl2, 0)] [] [(11, 1); (13, 1); (15, 1)]),
-         [Read 108; SetCfg 15 2], 108.
+         [Read f_fl1_ctc; SetCfg 15 2], f_fl1_ctc.
   vm_compute. do 2 eexists. repeat split; try reflexivity. discriminate.
 Qed.
 
@@ -121,21 +121,23 @@ Lemma registry_read_coherent : forall b ops f,
   select AF registry st f = select AF registry (clear st) f ->
   (forall r, select AF registry st f = Some r ->
      forallb (in_base (s_base st)) (r_feats r) = true
-     /\ known_incomplete r = false /\ r_mkind r = 0) ->
+     /\ known_incomplete r = false) ->
   snd (read RF registry st f) = snd (read RF registry (clear st) f).
 Proof.
   intros b ops f st Hsel Hg.
   apply history_read_coherent; auto using registry_collide_ok.
-  intros r Hr. destruct (Hg r Hr) as [Hflat [Hk Hm]].
+  intros r Hr. destruct (Hg r Hr) as [Hflat Hk].
   destruct (select_some _ _ _ _ _ Hr) as [Hin _].
   split; [exact Hflat|]. split; [now apply registry_complete_partial|].
-  split; [exact Hm|].
   assert (H : forallb (fun r => known_incomplete r
-                || (negb (r_rf r =? 2) && match r_extra r with [] => true
-                                          | _ => false end)) registry = true)
+                || (plain_method r && negb (r_rf r =? 2)
+                    && match r_extra r with [] => true | _ => false end))
+                registry = true)
     by (vm_compute; reflexivity).
   rewrite forallb_forall in H. specialize (H r Hin). rewrite Hk in H.
-  cbn [orb] in H. apply andb_prop in H. destruct H as [H1 H2].
+  cbn [orb] in H. apply andb_prop in H. destruct H as [H H2].
+  apply andb_prop in H. destruct H as [H0 H1].
+  split; [exact H0|].
   split; [now apply negb_true_iff in H1|].
   destruct (r_extra r); [reflexivity|discriminate H2].
 Qed.
@@ -149,7 +151,7 @@ Example registry_read_coherent_example :
   select AF registry st f_time = select AF registry (clear st) f_time
   /\ (forall r, select AF registry st f_time = Some r ->
        forallb (in_base (s_base st)) (r_feats r) = true
-       /\ known_incomplete r = false /\ r_mkind r = 0)
+       /\ known_incomplete r = false)
   /\ has f_time (s_cache st) = true
   /\ exists v, snd (read RF registry st f_time) = Ok v.
 Proof.
@@ -164,3 +166,22 @@ Example emodulus_precedence_example :
   sel_scenario registry (emod_base true true true false true true 1) = 3
   /\ taken true true true false true true 1 = 3.
 Proof. vm_compute. split; reflexivity. Qed.
+
+(* non-vacuity for a prioritised recipe: three channels, all six elements,
+   one element changes between two reads *)
+Example registry_read_coherent_example_ctc :
+  let b := mkBase [(f_fl1, 0); (f_fl2, 0); (f_fl3, 0)] []
+                  [(11, 1); (12, 1); (13, 1); (14, 1); (15, 1); (16, 1)] in
+  let ops := [Read f_fl1_ctc; SetCfg 15 2] in
+  let st := run_state registry (fresh b) ops in
+  select AF registry st f_fl1_ctc = select AF registry (clear st) f_fl1_ctc
+  /\ (forall r, select AF registry st f_fl1_ctc = Some r ->
+       forallb (in_base (s_base st)) (r_feats r) = true
+       /\ known_incomplete r = false)
+  /\ has f_fl1_ctc (s_cache st) = true.
+Proof.
+  cbv zeta. split; [vm_compute; reflexivity|]. split.
+  - intros r H. vm_compute in H. inversion H. subst r. vm_compute.
+    split; reflexivity.
+  - vm_compute. reflexivity.
+Qed.
